@@ -50,12 +50,15 @@ P23x == D("PlanarBond", <<NoAtom, 1, 2, 3, 4, NoAtom>>, 0)
 R23p == D("AtropBond", <<1, NoAtom, 2, 3, 4, NoAtom>>, 1)
 R23m == D("AtropBond", <<1, NoAtom, 2, 3, 4, NoAtom>>, -1)
 P12 == D("PlanarBond", <<NoAtom, NoAtom, 1, 2, 3, 4>>, 0)
-AMenu == {T1p, T1m, T1n, T2p, S1}
-BMenu == {P23, R23p, R23m, P12}
+S1n == D("SquarePlanar", <<1, 2, 3, 4, NoAtom>>, NoPar)
+P23n == D("PlanarBond", <<1, NoAtom, 2, 3, 4, NoAtom>>, NoPar)
+R23n == D("AtropBond", <<1, NoAtom, 2, 3, 4, NoAtom>>, NoPar)
+AMenu == {T1p, T1m, T1n, T2p, S1, S1n}
+BMenu == {P23, R23p, R23m, P12, P23n, R23n}
 AChangeCombos == { <<T1p, NoD, NoD>>, <<NoD, T1m, NoD>>, <<NoD, NoD, T1p>>, <<T1p, NoD, T1m>>,
-                   <<T1p, S1, T1m>>, <<T1p, NoD, T2p>>, <<NoD, NoD, NoD>> }
+                   <<T1p, S1, T1m>>, <<T1p, NoD, T2p>>, <<NoD, NoD, NoD>>, <<T1n, S1n, NoD>> }
 BChangeCombos == { <<P23, NoD, NoD>>, <<NoD, NoD, R23p>>, <<P23, R23m, P23x>>,
-                   <<P23, NoD, P12>>, <<NoD, NoD, NoD>> }
+                   <<P23, NoD, P12>>, <<NoD, NoD, NoD>>, <<NoD, P23n, R23n>> }
 
 Op(n) == [BaseOp EXCEPT !.name = n]
 
